@@ -69,16 +69,24 @@ PROPERTIES = {
             "request times are non-decreasing along a history (Instant::now() is monotone)",
         ],
     },
+    "C11": {
+        "units": ["format_state", "bar_draw", "c07_position"],
+        "level": "proof",
+        "explanation": "ProgressStyle::{format_state, push_line, current_tick_str, get_tick_str, get_final_tick_str} and WideElement::expand extracted from src/style.rs and verified: the frame produced by format_state equals, line for line, a rendering function written from the crate's documented key table (key_text: pos/len families through Display of u64 / HumanCount / HumanBytes / DecimalBytes / BinaryBytes of the position and of the length-or-position; percent families from fraction()*100 with precision 0 / 3; elapsed / eta / duration through FormattedDuration and alternate HumanDuration of the getters; per_sec families from per_sec(); msg / prefix from the tab-expanded message / prefix; spinner from tick and finished status; unknown keys empty), a custom key shadows the built-in and is written with the state of this very draw; each key has its own named obligation. The getters are evaluated on the one &ProgressState passed in, i.e. at the instant of the draw. Trackers are ticked (bar_draw) and reset (c07_position) together with the bar.",
+        "level_text": "Deductive proof (Verus) for every template, state, width and key: the loop over template parts carries an inductive invariant against the fold `run`, the 28-way key dispatch is checked key by key.",
+        "level_note": "Assumed: what core::fmt prints for a value under given flags is the uninterpreted text function of that value type (the formatters themselves are C15's unit), getters fraction/per_sec/elapsed/eta/duration are opaque values of the state (C07/C09), std String operations (push, push_str, clear, replace, split, trim_end) as first-order helpers, the custom tracker writes only through the writer it receives. ProgressState::{eta, per_sec, duration} bodies are not part of this unit.",
+        "assumptions": ["R7b write_fmt(format_args!) translation; R12 string-literal match as if-chain; R3 loops"],
+    },
     "C10": {
-        "units": ["c10_template"],
+        "units": ["c10_template", "format_state"],
         "level": "proof",
         "explanation": "Template::from_str_with_tab_width (the whole parsing automaton, every arm) extracted from src/style.rs and verified by Verus: no unwrap / parse / index can panic for any input string (totality), with the automaton invariants (a placeholder is the last part while its options are parsed; the key is non-empty) and the order-preservation obligation that literal text already emitted or pending is never changed and new literal text is only appended.",
         "level_text": "Deductive proof (Verus), for every input string and every loop iteration, that parsing returns Ok or Err without panicking and that the literal output of the parser state only ever grows at its end (in-order concatenation); the loop is covered by an inductive invariant, not by a bound.",
-        "level_note": "Assumed: str::parse::<u16> (Ok exactly for digit strings with value <= 65535), console::Style::from_dotted_str total, char::is_ascii_whitespace, TabExpandedString::new opaque. Not decided here: that exactly the grammar's literal characters and placeholder fields are produced (the full automaton-equals-grammar proof) and that format_state renders one output line per template line -- the replay driver evaluates that clause on a family of well-formed templates as a sanity check only.",
+        "level_note": "Assumed: str::parse::<u16> (Ok exactly for digit strings with value <= 65535), console::Style::from_dotted_str total, char::is_ascii_whitespace, TabExpandedString::new opaque. Not decided here: that exactly the grammar's literal characters and placeholder fields are produced (the full automaton-equals-grammar proof) The line structure of format_state (one output line per template line, no line contains a newline) is decided in the format_state unit (push_line, lemma_rendered_lines).",
         "assumptions": ["R4 arm duplication, R5 helpers (parse_u16, take_string), R15 Cow as String"],
     },
     "C16": {
-        "units": ["c16_tabs"],
+        "units": ["c16_tabs", "format_state"],
         "level": "proof",
         "explanation": "TabExpandedString::{new, expanded, set_tab_width}, Template::set_tab_width, ProgressStyle::set_tab_width, BarState::{set_tab_width, set_style, finish_using_style}, TabRewriter::write_str and ProgressBar::{set_message, set_prefix, with_message, with_prefix, with_tab_width, message, prefix} extracted and verified against expand(s, n) = 'every TAB replaced by n spaces'; the bar-level invariant tabs_wf (message, prefix, every template literal and the custom-key rewriter use the bar's current tab width; a cached expansion is the expansion for the current width) is preserved by every mutator, which discharges the 'any order of calls' quantifier once per operation.",
         "level_text": "Deductive proof (Verus) for all texts, tab widths and call orders: expanded()/message()/prefix() return exactly expand(original, current tab width), which provably contains no TAB; every mutator re-establishes the invariant, so the result holds after any sequence of calls, not a sampled one.",
@@ -86,7 +94,7 @@ PROPERTIES = {
         "assumptions": ["R2: Arc<Mutex<BarState>> as a plain field (sequential)"],
     },
     "C12": {
-        "units": ["c12_padding"],
+        "units": ["c12_padding", "format_state"],
         "level": "proof",
         "explanation": "PaddedStringDisplay::fmt extracted from src/style.rs and verified against the padding / truncation functions written from the statement: exact output for content that fits (pad side by alignment), unshortened output when too wide without truncation, and on printable ASCII exactly W characters from the start / middle / end with truncation; both padding loops carry inductive invariants; the byte arithmetic (len - excess) is proved free of underflow.",
         "level_text": "Deductive proof (Verus) for every text, width, alignment and truncate flag of the three clauses above; the 'exactly W columns' clause for arbitrary (non-ASCII) text is a separate obligation that fails on the pinned tree and is listed as a known finding with its witness.",
@@ -102,7 +110,7 @@ PROPERTIES = {
         "assumptions": ["R7 write! translation, R3 chars().enumerate() as an index loop over the materialised characters"],
     },
     "C13": {
-        "units": ["c13_bar"],
+        "units": ["c13_bar", "format_state"],
         "kani_thorough": [
             {"harness": "c13_format_bar_geometry", "timeout": 2400, "complete": True,
              "obligation": "kani/style::ProgressStyle::format_bar",
@@ -174,6 +182,9 @@ WITNESS = {
     "c15_formatters/HumanFloatCount::fmt": ["human_float"],
     "c15_formatters/HumanCount::fmt": ["human_count"],
     "c15_formatters/FormattedDuration::fmt": ["formatted_duration"],
+    "format_state/ProgressStyle::push_line": ["render_lines"],
+    "format_state/WideElement::expand": ["render_wide"],
+    "format_state/ProgressStyle::": ["render_keys", "render_lines", "render_wide"],
     "multi_state/MultiState::suspend": ["io_fail_multi"],
     "multi_state/MultiState::draw__F_C03_log": ["c03_clear_overshoot"],
     "multi_state/MultiState::draw__F_C03_text": ["c03_text_below_zombies"],
@@ -188,6 +199,26 @@ WITNESS = {
     "c14_style/ProgressStyle::progress_chars": ["style_build progress_chars"],
     "c14_style/ProgressStyle::tick_chars": ["style_build tick_chars"],
     "c14_style/ProgressStyle::": ["style_build"],
+}
+
+# unit -> [(replay routine, properties, what it evaluates)]: bounded stand-ins run ONLY when the unit cannot be
+# extracted from the current tree (restructured code).  They evaluate the executable form of the unit's contracts on
+# the real code over a finite input family; routines whose family contains a listed known finding are not used here.
+FALLBACK = {
+    "c05_limiters": [("rl_allow", ["C05"], "token-bucket step relation of RateLimiter::allow on a grid of states and times"),
+                     ("rl_new", ["C05"], "RateLimiter::new starts with the documented capacity"),
+                     ("pos_allow", ["C05"], "AtomicPosition::allow token bucket on a grid of states and times"),
+                     ("rl_window", ["C05"], "window bound 20 + R*T + 1 on generated request traces")],
+    "c14_style": [("style_build", ["C14"], "builders reject or produce a renderable style (family of tick/progress strings)")],
+    "c10_template": [("template_total", ["C10"], "parser totality on generated strings up to length 6 over the grammar alphabet"),
+                     ("template_order", ["C10"], "literal order / one line per template line on generated templates")],
+    "format_state": [("render_keys", ["C11"], "every documented key against the getters through the public formatters, 9 position/length pairs x 3 statuses x 4 tick counts; custom key shadowing"),
+                     ("render_wide", ["C12", "C13", "C11"], "lines with wide_bar / wide_msg fill exactly the terminal width (4 widths x 7 templates)"),
+                     ("render_lines", ["C10", "C11", "C01"], "frame line structure for 8 templates x 9 messages with embedded / trailing newlines")],
+    "c12_padding": [("pad_field ascii", ["C12"], "padding / truncation on printable ASCII, widths 0..12")],
+    "c15_formatters": [("human_count", ["C15"], "digit grouping on boundary values"),
+                       ("formatted_duration", ["C15"], "HH:MM:SS on boundary durations"),
+                       ("human_float", ["C15"], "HumanFloatCount shape on boundary values")],
 }
 
 NOT_APPLICABLE = [
